@@ -158,7 +158,10 @@ Print Assumptions C09_to_naive_date_ymd.
 (** * the hypotheses are inhabited *)
 Example C09_ex_date : repr (-262143) 1 (mkdate (-262143) 1) /\ repr 10000 366 (mkdate 10000 366).
 Proof. exact ex_dates. Qed.
+Print Assumptions C09_ex_date.
 Example C09_ex_time : time_dom (Time.mk_time 86399 1999999999) /\ time_dom (Time.mk_time 0 0).
 Proof. exact ex_times. Qed.
+Print Assumptions C09_ex_time.
 Example C09_ex_dtz : dtz_dom (mk_dtz (mk_ndt (mkdate 2016 366) (Time.mk_time 86399 1500000000)) (-34200)).
 Proof. exact ex_dtz. Qed.
+Print Assumptions C09_ex_dtz.
